@@ -269,7 +269,7 @@ fn replay(run: &Run, d: Value) -> ! {
         ))
     };
     let label = d["backend_variant"].as_str().unwrap_or("");
-    let bv = backends::all_bvs()
+    let bv = backends::bvs_format_once()
         .into_iter()
         .find(|b| b.label() == label)
         .unwrap_or_else(|| vcommon::machinery(&format!("replay: unknown backend {label}")));
@@ -312,15 +312,7 @@ fn main() {
         replay(&run, d);
     }
     let table = exclusions::verify_tables();
-    let mut bvs = backends::all_bvs();
-    // `--format` (syn + prettyplease over the finished text) is 3/4 of the Rust generator's run
-    // time; it is kept on the default variant (every world goes through it once) and dropped
-    // from the six other Rust variants, whose options do not reach the formatter.
-    for b in bvs.iter_mut() {
-        if b.backend == "rust" && !b.variant.is_empty() {
-            b.args.retain(|a| *a != "--format");
-        }
-    }
+    let mut bvs = backends::bvs_format_once();
     let (mut worlds, bounds) = build_worlds(run.thorough());
     // debugging knobs (never used by ./check)
     if let Ok(only) = std::env::var("E7_ONLY") {
